@@ -38,6 +38,7 @@ pub static SINGLE: &[(&str, &[&str])] = &[
     ("group_imports", &["StdExternalCrate", "One"]),
     ("reorder_imports", &["false"]),
     ("reorder_modules", &["false"]),
+    ("reorder_impl_items", &["true"]),
     ("type_punctuation_density", &["Compressed"]),
     ("space_before_colon", &["true"]),
     ("space_after_colon", &["false"]),
@@ -122,7 +123,7 @@ pub fn relevant(family: &str) -> &'static [&'static str] {
         ],
         "impl" | "trait" => &[
             "brace_style", "where_single_line", "empty_item_single_line", "indent_style",
-            "type_punctuation_density", "fn_single_line", "trailing_comma",
+            "type_punctuation_density", "fn_single_line", "trailing_comma", "reorder_impl_items",
         ],
         "misc" => &[
             "brace_style", "format_macro_matchers", "format_macro_bodies", "indent_style",
